@@ -181,6 +181,8 @@ def run_case(case):
     if case["body"]:
         discs.extend(_parse_family(case, tags))
         evals += 6
+        discs.extend(_parsed_class_family(case, tags))
+        evals += 12
     return CaseResult(discs, tags | {"L=%d" % L}, nontrivial, "%d ops usable, %d interferences" % (len(usable), len(discs)), evals=evals)
 
 
@@ -189,6 +191,41 @@ def _first_diff(a, b):
 
     diff = [l for l in difflib.unified_diff(a.splitlines(), b.splitlines(), lineterm="", n=0) if not l.startswith(("---", "+++", "@@"))]
     return " / ".join(diff[:6])[:400]
+
+
+def _parsed_class_family(case, tags):
+    """A description that comes from parse.class_ of a class WITH a method (its `_internal` body is whatever the parser
+    left there) shared by several class emissions: every emission must equal the one from a freshly parsed description."""
+    from doctrans import emit, parse
+    from doctrans.source_transformer import to_code
+
+    out = []
+    try:
+        src = to_code(emit.class_(build_ir(case), class_name=kinds.CLASS_NAME, emit_call=True))
+        ops = {"class": lambda ir: to_code(emit.class_(ir, class_name=kinds.CLASS_NAME)),
+               "class_call": lambda ir: to_code(emit.class_(ir, class_name=kinds.CLASS_NAME, emit_call=True))}
+        fresh = {k: f(parse.class_(ast.parse(src).body[0])) for k, f in ops.items()}
+    except Exception:
+        tags.add("parsed_class_family:raises")
+        return out
+    tags.add("parsed_class_family")
+    for seq in itertools.product(ops, repeat=2):
+        shared = parse.class_(ast.parse(src).body[0])
+        for k, op in enumerate(seq):
+            try:
+                got = ops[op](shared)
+            except Exception as e:
+                out.append(Disc("parsed-class:raise:%s" % type(e).__name__, ">".join(seq[: k + 1]), str(e)[:200]))
+                break
+            if got != fresh[op]:
+                out.append(Disc("parsed-class:interfere:%s->%s" % (seq[k - 1] if k else "-", op), ">".join(seq[: k + 1]), _first_diff(fresh[op], got)))
+                break
+    seen, uniq = set(), []
+    for d in out:
+        if d.aspect not in seen:
+            seen.add(d.aspect)
+            uniq.append(d)
+    return uniq
 
 
 def _parse_family(case, tags):
